@@ -438,6 +438,16 @@ func GetClassMethodT(
 		}
 	}
 
+	// a configured class inherits the class methods of the classes it extends
+	if methodT == nil {
+		methodT =
+			getParentMethodT("Builtin", targetClass, targetMethod, isPrivate, true)
+
+		if methodT != nil {
+			return methodT
+		}
+	}
+
 	if methodT == nil {
 		methodT = TFrame[classMethodTFrameKey("Builtin::"+frame, targetClass, targetMethod, false)]
 	}
